@@ -17,6 +17,7 @@ from ..core import call_name, const_value, kwarg, params, u, walk_local
 from ..cykernel import (check_bounds, check_prange,
                         check_zero_before_accumulate)
 from ..match import canon, classify, match
+from ..normal import is_pure
 from ..patterns import (Cmp, calls_in, check_masked_ufuncs,
                         check_no_arg_mutation, conjuncts, finfo, returns_of,
                         subscript_stores)
@@ -206,15 +207,74 @@ def _out_fill(fi, name, at):
     return r
 
 
+def _shape_element(e, k, n):
+    """Element k of the sequence `e` when it is unpacked into exactly n names,
+    for the sequences whose elements have a spelling of their own:
+    `E.shape` -> `E.shape[k]`; `E.shape[a:]`, `E.shape[a:b]` (literal a >= 0,
+    unit step) -> `E.shape[a + k]` (x[a:][k] == x[a + k] for non-negative a,
+    k); `E.shape[-n:]` -> `E.shape[-n + k]`; `np.shape(E)` likewise."""
+    def at(base, i):
+        return ast.Subscript(value=base, slice=ast.Constant(value=i), ctx=ast.Load())
+    if isinstance(e, ast.Call) and call_name(e) in ('np.shape', 'numpy.shape') and len(e.args) == 1 and not e.keywords \
+            and not isinstance(e.args[0], ast.Starred):
+        e = ast.Attribute(value=e.args[0], attr='shape', ctx=ast.Load())
+    if isinstance(e, ast.Attribute) and e.attr == 'shape':
+        return at(e, k)
+    if isinstance(e, ast.Subscript) and isinstance(e.value, ast.Attribute) and e.value.attr == 'shape' and \
+            isinstance(e.slice, ast.Slice) and (e.slice.step is None or const_value(canon(e.slice.step)) == 1):
+        lo = 0 if e.slice.lower is None else const_value(canon(e.slice.lower))
+        if not isinstance(lo, int) or isinstance(lo, bool):
+            return None
+        if lo >= 0:
+            return at(e.value, lo + k)
+        if e.slice.upper is None and -lo == n:
+            return at(e.value, lo + k)
+    return None
+
+
+def _unpack_element(fi, name, at, stop=()):
+    """`a, b = jc.shape[0:2]` ... use of `a` at `at`: the expression
+    `jc.shape[0]` (see _shape_element), when the unpacking assignment is the
+    single definition that reaches `at`, its value is pure and none of its
+    operands is rebound or mutated between the assignment and `at`.  (A
+    parallel assignment `a, b = e1, e2` is already seen through by
+    FuncInfo.def_value / expand.)"""
+    defs = fi.rd.defs_at(at, name)
+    if len(defs) != 1:
+        return None
+    site = next(iter(defs))
+    if not isinstance(site, ast.Assign) or len(site.targets) != 1 or not isinstance(site.targets[0], (ast.Tuple, ast.List)):
+        return None
+    elts = site.targets[0].elts
+    if any(not isinstance(t, ast.Name) for t in elts):
+        return None
+    names = [t.id for t in elts]
+    V = site.value
+    if names.count(name) != 1 or isinstance(V, (ast.Tuple, ast.List)) or not is_pure(V) or fi._mutated_in_place(name):
+        return None
+    for m in ast.walk(V):
+        if not (isinstance(m, ast.Name) and isinstance(m.ctx, ast.Load)) or m.id in _MODULE_ALIASES:
+            continue
+        if m.id in fi.rd.locals and fi.rd.defs_at(site, m.id) != fi.rd.defs_at(at, m.id):
+            return None
+        for ms in fi._mutated_in_place(m.id):
+            if ms is not site and ms is not at and fi.cfg.reachable(site, ms) and fi.cfg.reachable(ms, at, avoiding=[site]):
+                return None
+    return _shape_element(_xp(fi, V, site, stop=stop), names.index(name), len(names))
+
+
 def _xp(fi, expr, at, stop=()):
     """fi.expand + substitution of allocate-then-fill buffers (see _out_fill)
-    as seen from statement `at`."""
+    and of names bound by unpacking a shape (see _unpack_element) as seen
+    from statement `at`."""
     e = fi.expand(expr, stop=stop)
 
     class T(ast.NodeTransformer):
         def visit_Name(self, n):
             if isinstance(n.ctx, ast.Load) and n.id not in stop:
                 r = _out_fill(fi, n.id, at)
+                if r is None:
+                    r = _unpack_element(fi, n.id, at, stop=stop)
                 if r is not None:
                     return copy.deepcopy(r)
             return n
@@ -369,15 +429,16 @@ def d1_kernel(ck):
             if loop is None:
                 ck.missing('C18.D1.cell.loops', 'loop binding the %s index `%s`' % (what, u(nm)))
                 continue
-            e = _range_extent(fi.expand(loop.iter))
+            lit = _xp(fi, loop.iter, s)
+            e = _range_extent(lit)
             forms = ext(arr, k) + (ext(B if arr == A else A, 0) if k == 0 else [])
             if e is None:
-                vv = classify(fi.expand(loop.iter), ['range(%s)' % f for f in forms], scope=scope)
+                vv = classify(lit, ['range(%s)' % f for f in forms], scope=scope)
                 if vv[0] == 'match':
                     vv = ('far', 0, None)
             else:
                 vv = classify(e, forms, scope=scope)
-            ck.decide(vv, 'C18.D1.cell.loops', mod, loop, F, 'for %s in %s' % (nm.id, _cx(fi.expand(loop.iter))),
+            ck.decide(vv, 'C18.D1.cell.loops', mod, loop, F, 'for %s in %s' % (nm.id, _cx(lit)),
                       '%s index runs over all of %s.shape[%d]' % (what, arr, k),
                       'the %s index must run over range(%s.shape[%d]): every frame of every feature pair is counted '
                       'exactly once' % (what, arr, k))
@@ -871,7 +932,7 @@ def d4_grid(ck):
                     ck.missing(rule + '.validate', 'definition of `%s` reaching the grid is not a validation call' % vn.id)
                 continue
             c = site.value
-            ext = fi.expand(c.args[1]) if len(c.args) == 2 and not c.keywords else None
+            ext = _xp(fi, c.args[1], site) if len(c.args) == 2 and not c.keywords else None
             b = match('_W.shape[_K]', ext) if ext is not None else None
             if b is None and ext is not None and match('len(_W)', ext) is not None:
                 b = dict(match('len(_W)', ext), _K=ast.Constant(value=0))
@@ -889,6 +950,25 @@ def d4_grid(ck):
 
 # ---------------------------------------------------------------------------
 # D6 joint_counts / mi_matrix
+
+def _bindings(s):
+    """[(name, value)] bound by the assignment statement `s`: `x = e`,
+    `x = y = e`, and element-wise the parallel form `x, y = e1, e2` (every
+    right-hand side is evaluated before any name is bound: origins of the
+    operands are to be taken at `s`)."""
+    out = []
+    if isinstance(s, ast.AnnAssign) and isinstance(s.target, ast.Name) and s.value is not None:
+        out.append((s.target.id, s.value))
+    if isinstance(s, ast.Assign):
+        for t in s.targets:
+            if isinstance(t, ast.Name):
+                out.append((t.id, s.value))
+            elif isinstance(t, (ast.Tuple, ast.List)) and isinstance(s.value, (ast.Tuple, ast.List)) and \
+                    len(t.elts) == len(s.value.elts) and \
+                    not any(isinstance(x, ast.Starred) for x in list(t.elts) + list(s.value.elts)):
+                out += [(te.id, ve) for te, ve in zip(t.elts, s.value.elts) if isinstance(te, ast.Name)]
+    return out
+
 
 def _zip_source(fi, name, at):
     """`name` is bound by `for ... in [enumerate(]zip(A, B, ...)[)]`: the
@@ -1008,19 +1088,18 @@ def d6_joint_counts(ck):
     # ---- dtype harmonisation: a cast to the other side's dtype must be widening
     casts = []
     for s in walk_local(fn):
-        if isinstance(s, ast.Assign) and len(s.targets) == 1 and isinstance(s.targets[0], ast.Name) and \
-                isinstance(s.value, ast.Call) and isinstance(s.value.func, ast.Attribute) and s.value.func.attr == 'astype' \
-                and s.value.args:
-            src = _origin_of(fi, s.value.func.value, s)
-            if src in (X, Y):
-                casts.append((s, src))
+        for tname, val in _bindings(s):
+            if isinstance(val, ast.Call) and isinstance(val.func, ast.Attribute) and val.func.attr == 'astype' and val.args:
+                src = _origin_of(fi, val.func.value, s)
+                if src in (X, Y):
+                    casts.append((s, src, tname, val))
     if not casts:
         ck.missing(rule + '.uptype', 'dtype harmonisation (`<array>.astype(<other>.dtype)`) in joint_counts')
     cast_sides = set()
     unrecognised = False
-    for s, src in casts:
+    for s, src, tname, cval in casts:
         other = Y if src == X else X
-        dt, dat = fi.expand(s.value.args[0], stop=(X, Y)), s
+        dt, dat = fi.expand(cval.args[0], stop=(X, Y)), s
         while isinstance(dt, ast.Name):
             # a named dtype holds the value it had where it was defined: read its definition there
             ds = fi.rd.defs_at(dat, dt.id)
@@ -1076,7 +1155,7 @@ def d6_joint_counts(ck):
         k = 0 if src == X else 1
         for c, st in xy_calls:
             a = c.args[k]
-            used = isinstance(a, ast.Name) and a.id == s.targets[0].id and s in fi.rd.defs_at(st, a.id)
+            used = isinstance(a, ast.Name) and a.id == tname and s in fi.rd.defs_at(st, a.id)
             ck.check(used, rule + '.uptype', mod, c, F, '%s after %s' % (u(c), u(s)), 'the up-typed array is passed to the kernel',
                      'the result of `%s` does not reach the kernel call: the arrays keep different dtypes' % u(s))
     if casts and cast_sides and cast_sides != {X, Y} and not unrecognised:
